@@ -27,7 +27,7 @@ def parseTreeRecs : Nat → List String → Option (List TreeRec × List String)
       | none => none
     | none => none
 
-/-- events of a history: `A <tree record>` | `X <tree record>` (refused offer) | `F <split>` | `S <split>` | `G` -/
+/-- events of a history: `A <tree record>` | `X <tree record>` (refused offer) | `M <k> <k tree records>` (update from a distribution of k trees) | `F <split>` | `S <split>` | `G` -/
 def parseEvs : Nat → List String → Option (List Ev)
   | 0, ws => if ws.isEmpty then some [] else none
   | n + 1, ws =>
@@ -43,6 +43,12 @@ def parseEvs : Nat → List String → Option (List Ev)
       | some s => (parseEvs n rest).map (fun es => Ev.summ s :: es)
       | none => none
     | "G" :: rest => (parseEvs n rest).map (fun es => Ev.ages :: es)
+    | "M" :: k :: rest =>
+      match k.toNat? with
+      | some k => match parseTreeRecs k rest with
+        | some (ts, rest') => (parseEvs n rest').map (fun es => Ev.merge ts :: es)
+        | none => none
+      | none => none
     | "X" :: rest =>
       match parseTreeRec rest with
       | some (t, rest') => (parseEvs n rest').map (fun es => Ev.refused t :: es)
